@@ -39,14 +39,17 @@ def gen_ops(rng, model):
         a = ['add', ('Tabulation',), ('opt', 'dr'), 0, '0.5']; adds += [a, ['add', ('Tabulation',), ('opt', 'dr'), rng.choice([0, 0, 1]), '0.25']]
     for _ in range(rng.choice([0, 0, 1, 1, 2])):
         r = rng.random()
-        if r < 0.35: adds.append(['add', ('Pair',), ('pair', 'Zz', rng.choice(['Zz', model['els'][0]])), rng.randint(0, 4), rng.choice(sc.PAIR_DEFS)])
+        if r < 0.35: adds.append(['add', ('Pair',), ('pair', 'Zz', rng.choice(['Zz', model['els'][0]])), rng.randint(0, 4), rng.choice(sc.PAIR_DEFS + GE_DEFS)])
         elif r < 0.55: adds.append(['add', ('Other', 'Extra'), ('opt', 'k%d' % rng.randint(0, 2)), 0, 'v%d' % rng.randint(0, 3)])
         elif r < 0.7: adds.append(['add', ('Tabulation',), ('opt', 'dr'), 0, '0.5'])
         elif items:   # invalid: exists already (possibly spelled differently)
             s, e = rng.choice(items); adds.append(['add', s, e['key'], rng.randint(0, 4), e['val']])
     return ovr, adds
 
+GE_DEFS = ['>=0 as.constant 2.0 >=1.5 as.buck 500.0 0.3 10.0', 'as.buck 1633.0 0.327 3.95 >=4.0 as.zero', '>=0.5 as.constant 4.0', 'as.bornmayer 10.0 0.5 >=2.0 as.constant 0.25 >=3.0 as.zero']
 def replacement_value(rng, s, e):
+    # values with an inclusive range start contain '=': KEY=VALUE on the command line must be split at the FIRST '='
+    if s[0] in ('Pair', 'EAM-Embed', 'EAM-Density') and rng.random() < 0.35: return rng.choice(GE_DEFS)
     if s[0] == 'Pair': return rng.choice(sc.PAIR_DEFS)
     if s[0] == 'EAM-Embed': return rng.choice(sc.EMBED_DEFS)
     if s[0] == 'EAM-Density': return rng.choice(sc.DENS_DEFS)
@@ -204,7 +207,9 @@ def oracle(case):
     return fails
 
 def search_cases(rng, n):
-    for _ in range(n // 6):
-        c = gen_case(rng); c['route'] = 'api'; yield c
+    for k in range(n // 6):
+        c = gen_case(rng)
+        if k % 3: c['route'] = 'api'          # the command-line route costs a subprocess per case: one case in three
+        yield c
 def finding_for(case, fails): return None
 def replay_finding(f): return False
